@@ -89,10 +89,11 @@ type world struct {
 	cur   *obs
 	byRid map[string]*obs
 
-	keyEvMu  sync.Mutex
-	keyEvs   []string                               // snapshot of the configured key list at each api.keys.updated
-	keyDirty []bool                                 // ... and whether that list held an already expired key (portbase then schedules a clean-up)
-	onKeyEv  func(idx int, snap string, dirty bool) // optional: runs inside the hook (an admin's change arriving at that moment)
+	keyEvMu   sync.Mutex
+	keyEvs    []string                               // snapshot of the configured key list at each api.keys.updated
+	keyDirty  []bool                                 // ... and whether that list held an already expired key (portbase then schedules a clean-up)
+	onKeyEv   func(idx int, snap string, dirty bool) // optional: runs inside the hook (an admin's change arriving at that moment)
+	onRefetch func(option string)                    // optional: runs inside config.get.refetch (a getter is refreshing its cached value)
 
 	// import bookkeeping: api.keys.update.returned fires on every return path of an import
 	updOpen  map[uint64]bool // goroutines whose import reached api.keys.updated and has not returned yet
@@ -225,6 +226,14 @@ func startWorld(dir string, b *vlib.Batch, logLevel string) (*world, error) {
 		select {
 		case w.keySig <- struct{}{}:
 		default:
+		}
+	})
+	vhook.Set("config.get.refetch", func(point, subject string) {
+		w.keyEvMu.Lock()
+		cb := w.onRefetch
+		w.keyEvMu.Unlock()
+		if cb != nil {
+			cb(subject)
 		}
 	})
 	vhook.Set("config.set.presignal", func(point, subject string) {
